@@ -64,6 +64,20 @@ def run(ctx, F, rule="E-CANON"):
                "includes the reference count or the level number makes equal nodes unequal (and changes when a "
                "reordering renumbers levels in place)" % (tr, adt, F.where(fid), sorted(fs)))
     ctx.floor(rule + ".key", "Eq/Hash impls of node types", nkeys, 2)
+    # the equality itself: `children == children` (not its negation)
+    from lib import hirutil as H
+    for fid, r in sorted(F.fns.items()):
+        imp = r.get("impl") or {}
+        if "node::fixed_arity::NodeWithLevel" not in imp.get("self", "") or imp.get("trait") != "std::cmp::PartialEq" or not fid.endswith("::eq"):
+            continue
+        h = F.hir.get(fid)
+        if not h:
+            continue
+        ops = [x.get("o") for x in H.walk(h["body"]) if x.get("k") == "bin" and x.get("o") in ("==", "!=")]
+        nots = [x for x in H.walk(h["body"]) if x.get("k") == "un" and x.get("o") == "!"]
+        ctx.ob(rule + ".key", "%s.key:%s:eq-op" % (rule, imp["self"].split("<")[0]), ops == ["=="] and not nots,
+               "PartialEq::eq of the node type (%s) %s" % (F.where(fid), "is `children == children`" if ops == ["=="] and not nots else
+                                                           "is not the plain equality of the children (operators %s)" % ops))
     # ---- funnel: get_or_insert ------------------------------------------------------------------------------
     nf = 0
     for fid, r in sorted(F.fns.items()):
